@@ -36,6 +36,10 @@ TRUST = ['CBMC 6.11.0 (C front end, --dfcc, SAT back end)', 'vlib/cxx2c.py idiom
          'entity handles are opaque; the back end is a ghost record: the answer of the has-query per name and the create calls received',
          'ASSUMED: the has-query of the back end answers whether a child with that name exists (HDF5 link table, H5Lexists)']
 ASSUME = ['KERNEL ONLY: of the rejection classes in the statement only "duplicate or invalid name, empty type, unusable positions array, empty value list" at the create functions of File, Block, Source and Section are decided; '
-          'what the back-end constructors do between their libhdf5 calls (half-built multi-tag, DataFrame re-identification, replace-link setters, value type check after resize) is NOT covered',
+          'plus PropertyHDF5::values (a value of another type anywhere in the list is rejected before the dataset is resized or written). '
+          'What the back-end constructors do between their libhdf5 calls (half-built multi-tag, DataFrame re-identification, replace-link setters) is NOT covered',
           'Block::createDataFrame (header; std::set of column names) is not under contract']
-SPEC = dict(contracts=['nd.h', 'c08_gate.h'], stubs=[], include_order=['nd.h', 'c08_gate.h'], units=UNITS, jobs=JOBS, trusted_base=TRUST, assumptions=ASSUME)
+import props.c14 as c14        # the value setter every Property assignment ends in (shared with C14)
+GATE_UNITS = dict(UNITS); GATE_JOBS = list(JOBS)
+UNITS = dict(UNITS); UNITS.update(c14.PROP_UNITS); JOBS = JOBS + c14.PROP_JOBS
+SPEC = dict(contracts=['nd.h', 'c08_gate.h', 'c14_prop.h'], stubs=[], include_order=['nd.h', 'c08_gate.h'], units=UNITS, jobs=JOBS, trusted_base=TRUST, assumptions=ASSUME)
